@@ -215,8 +215,11 @@ prop('C18', title='State-vector sync merges monotonically and announces exactly 
      bounded=[('bounded.c18', 'run', SH)],
      level_text='Unbounded proof over state vectors as maps on opaque node ids and received vectors with ANY number of entries: '
                 'sync_handler ignores malformed / over-claiming vectors entirely, otherwise local\' = entry-wise max and the callback '
-                'fires exactly once iff some entry was raised, nothing raised; aggregate = entry-wise max into the aggregate. Timer '
-                'decisions, publishing and emitted vectors are a bounded stand-in on a virtual clock.',
+                'fires exactly once iff some entry was raised, nothing raised; aggregate = entry-wise max into the aggregate; on_timer '
+                '(loop step contract, any state and vectors): a reset sends nothing, a steady-state timer sends exactly one sync '
+                'Interest, after suppression one is sent iff some local entry exceeds what the aggregate covers, back to steady, '
+                'vectors untouched; new_data: own sequence number +1 recorded for this node only, timer due at once, task woken iff '
+                'running. Timing (when timers fire) and the content of emitted vectors are a bounded stand-in on a virtual clock.',
      level_note='Quantified obligations (maps, exists) are discharged by z3 with MBQI; a false one may come back unknown (reported '
                 'as undecided, never as holding). Wall-clock arithmetic is opaque.',
      technique=T_MIXED)
